@@ -123,9 +123,9 @@ func (p *pgen) malformed() string {
 }
 
 // signAtTopLevelEnd reports whether, after lexing `prefix`, the last emitted token is a
-// top-level `+`/`-` symbol. Such prefixes hit the recorded finding "`- ` answers more"
-// (the ±Inf look-ahead waits for a token); the generators keep them out of the main
-// streams (counted) and emit the recorded ones separately.
+// top-level `+`/`-` symbol. As a prefix such a text is unfinished (the next token decides between
+// the symbol and ±Inf), as a finished text it is done (repo fix C13-02); the generators only
+// count these cases, they are part of the main streams.
 func signAtTopLevelEnd(prefix string) bool {
 	lx := sharedEnv().NewParser().VerifLexer()
 	for _, c := range prefix {
@@ -136,10 +136,12 @@ func signAtTopLevelEnd(prefix string) bool {
 	return lx.VerifLastTopLevelSign()
 }
 
-var knownOps = []string{"p H=- C=45.32", "p H=- C=43.32"}
+// probes of the lone top-level sign (a known finding until repo fix C13-02)
+var knownOps = []string{"p H=- C=45.32", "p H=- C=43.32", "p H=- C=45", "p H=- C=45.32/73.110.102", "p H=- C=43/105.110.102.32",
+	"p H=- C=37.45", "p H=w:45.32 C=45.32", "p H=w:45.32 C=45.32/73.110.102", "p H=w:45.32/a:43 C=40.97.32.45/41"}
 
 var histories = []string{"-", "-", "w:40.43.32.49.32.50.41", "w:41", "a:40.97.32.34.98", "a:123.32.34.97.98.99.34", "a:47.42.32.120",
-	"a:96.114", "w:34.97", "w:49.120.32", "a:37", "w:40.43.32.49.32.50.41/a:123.97.58", "a:45.32", "w:102.111.111", "a:39.97", "a:126"}
+	"a:96.114", "w:34.97", "w:49.120.32", "a:37", "w:40.43.32.49.32.50.41/a:123.97.58", "a:45.32", "w:102.111.111", "a:39.97", "a:126", "w:45.32", "w:43"}
 
 func codes(s string) string { return stringToCodes(s) }
 
@@ -151,16 +153,14 @@ func (p *pgen) emitCuts(hist, t string, cuts []int) {
 	for _, c := range append(cuts, len(rs)) {
 		piece := string(rs[prev:c])
 		pre += piece
-		if signAtTopLevelEnd(pre) {
-			p.g.Count("skipped: piece ends after a top-level sign (recorded finding)")
-			return
+		if c < len(rs) && signAtTopLevelEnd(pre) {
+			p.g.Count("a piece ends after a top-level sign")
 		}
 		parts = append(parts, codes(piece))
 		prev = c
 	}
 	if signAtTopLevelEnd(pre + "\n") {
-		p.g.Count("skipped: piece ends after a top-level sign (recorded finding)")
-		return
+		p.g.Count("the text ends after a top-level sign")
 	}
 	p.g.Emit("p H=%s C=%s", hist, strings.Join(parts, "/"))
 	p.g.Count("pieces " + itoa(len(parts)))
@@ -328,7 +328,7 @@ func genParse(g *Gen) {
 	}
 	// every history x a sensitive text, whole and cut
 	for _, h := range histories {
-		for _, t := range []string{"-1 ", "a", "(a b)", "\"s\" 1", "1e-3", "x:=2", "{a:1}"} {
+		for _, t := range []string{"-1 ", "a", "(a b)", "\"s\" 1", "1e-3", "x:=2", "{a:1}", "- ", "+", "- Inf", "%-", "a -"} {
 			p.allCuts(h, t, false)
 			g.Count("history x sensitive text")
 		}
